@@ -158,6 +158,24 @@ CLAIMED["C13"] = dict(
     technique="runtime monitoring: heap-ownership invariant walk at quiescent points plus structural graph comparison, ASan",
 )
 
+CLAIMED["C14"] = dict(
+    category="exploration",
+    text="Rounds: one VM, a pool of in-memory modules (each body logs verif.fx.loaded, some export a lazy value whose "
+         "computation ticks verif.fx), 2-16 OS threads each driving its own child thread through a generated program "
+         "that imports an overlapping subset, allocates and forces the shared lazies, all released by one barrier; GC "
+         "stress interleaves parent and child collections; seeded yields / spins / sleeps at the hook's sched points "
+         "perturb the order; blocking-thread and tokio drivers; a second phase imports standard-library modules cold "
+         "from 2-8 threads at once. Oracles: every thread's result equals its solo result on a fresh VM; every module "
+         "body and every lazy computation ran exactly once (effect log); heap-ownership walk at quiescence; CPU-budget "
+         "and blocked-forever monitors; ASan rounds (quick and thorough) and TSan rounds with -Zbuild-std (thorough).",
+    design_ref="DESIGN.md §4 C14",
+    note="F49 (extern modules published from the importing thread's heap: TSan data race on the GC mark bit in 202 of "
+         "1500 rounds) found and repaired; F50 (rare `Expected extern: Unknown` ICE after waiting for a lazy under the "
+         "tokio driver) and F51 (rare UndefinedBinding(std.types.*) when several threads import std modules cold) listed. "
+         "Reach is the schedules the stressor produced; evidence lists the distinct schedule signatures seen.",
+    technique="runtime monitoring: differential (parallel vs solo) with effect-log exactly-once monitor, stress and injected delays; ThreadSanitizer and AddressSanitizer builds",
+)
+
 CLAIMED["C15"] = dict(
     category="exploration",
     text="Edit histories (4-14 steps) over graphs of up to 6 in-memory modules - add (registered only or loaded), change "
